@@ -96,6 +96,14 @@ def _self_test(ctx, trace_path, cfg):
     k = news[len(news) // 2]
     e = dict(evs[k], id=evs[news[0]]["id"])
     tests.append(("dupid", k, e))
+    # a call that shifted the caller's operand slice by one cell (what the deviation C18/prefix-inserted-in-place leaves behind)
+    wn = [k for k, e in enumerate(evs) if e["e"] == "log" and e["src"]["k"] == "win" and e["src"]["n"] < len(e["after"])]
+    if not wn:
+        raise vlib.Broken("self-test: the recorded trace has no logging call with operands from a slice with spare capacity")
+    k = wn[len(wn) // 2]
+    a = evs[k]["after"]
+    n = evs[k]["src"]["n"]
+    tests.append(("operands", k, dict(evs[k], after=[0] + a[:n] + a[n + 1:])))
     if ctx.tier == "thorough":
         al = [k for k, e in enumerate(evs) if e["e"] == "alias" and e["src"]["k"] == "ctx"]
         if al:
@@ -124,15 +132,20 @@ def _self_test(ctx, trace_path, cfg):
 
 def run(ctx):
     quick = ctx.tier == "quick"
-    ctx.rule = ("MC: every interleaving of the specification's actions (New under the lock, Alias, Log = one write) in three factored "
-                "families - ids (3 goroutines x 2 contexts, new or alias of any context made so far), lines (3 goroutines x 2 logging calls, "
-                "routed and discarded level, nil and Cid() object) and mixed (%s). TRACE: a case is one recorded execution of the real package "
-                "(N goroutines released together, each making `ops` seeded random calls of WithContext / AliasContext / I,If,T,Tf,W,Wf,E,Ef and "
-                "Logger.Println/Printf of every level with nil, Cid() object, context with id, context without id; unique message per call) under "
-                "the race detector, with its run descriptor (goroutines x calls x action mix) enumerated by TLC; the recording is accepted by "
-                "Trace_LoggerCid iff every new id is fresh in the process, every alias carries its source's id and every logging call produced "
-                "exactly one Write that is one whole line with the right label and '[pid][cid]' / '[pid]'"
-                % ("3 goroutines x 1 context x 1 call, all kinds" if quick else "2 goroutines x 2 contexts x 2 calls, all kinds"))
+    ctx.rule = ("MC: every interleaving of the specification's actions (New under the lock, Alias, Log = one write that only reads its operands) "
+                "in four factored families - ids (3 goroutines x 2 contexts, new or alias of any context made so far), lines (3 goroutines x 2 logging "
+                "calls, routed and discarded level, nil and Cid() object), mixed (%s) and operands (%s). TRACE: a case is one recorded execution of "
+                "the real package (the main goroutine alone first, then N goroutines released together, each making `ops` seeded random calls of "
+                "WithContext / AliasContext / I,If,T,Tf,W,Wf,E,Ef and Logger.Println/Printf of every level with nil, Cid() object, context with id, "
+                "context without id; operands written out in the call, or a window back[:n] (n = 1..cap) of the goroutine's own slice used again call "
+                "after call, or of a slice all goroutines pass read-only at the same time, capacities from the descriptor) under the race detector, "
+                "with its run descriptor (goroutines x calls x action mix x operand mix x capacities) enumerated by TLC; the recording is accepted "
+                "by Trace_LoggerCid iff every new id is fresh in the process, every alias carries its source's id, every logging call produced "
+                "exactly one Write that is one whole line with the right label, '[pid][cid]' / '[pid]' and the message its operands - as the "
+                "application filled them - format to, and left the caller's slice up to its capacity as it was"
+                % ("3 goroutines x 1 context x 1 call, all kinds" if quick else "2 goroutines x 2 contexts x 2 calls, all kinds",
+                   "2 goroutines x 2 calls, windows 0..2 of one shared slice of capacity 2, prefixed and unprefixed context" if quick else
+                   "2 goroutines x 1 context x 2 calls, windows 1..3 of one shared slice of capacity 3, library-made and id-less context"))
     ctx.exhaustive = False
     ctx.assumptions += [
         "schedules of the real code are sampled by the Go scheduler (16 cores, GOMAXPROCS default), not enumerated; exhaustiveness holds for the specification only",
@@ -143,6 +156,10 @@ def run(ctx):
         "one or two spaces after the bracketed prefix are both accepted; timestamps are checked for shape only; messages contain no newline",
         "colour escape codes the library prints to os.Stdout for Warn/Error when the writer is no io.Closer do not reach the writer and are not judged",
         "goroutines log and alias with their own contexts and with contexts made by the main goroutine before they start, not with each other's",
+        "a println-style call whose operands all come from a slice shared by the goroutines has no token of its own: its write is the one with "
+        "that slice's token, the call's label, prefix and message that no other such call has been given (multiset matching)",
+        "the message of the property is what the operands format to as the application filled them; a call that changes the caller's operand "
+        "slice (up to its capacity) is reported even if no later call prints the changed cells; slices passed concurrently hold strings only",
     ]
     for m in ("LoggerCid", "Trace_LoggerCid", "Gen_LoggerCid"):
         ctx.sany("logger", m)
@@ -160,12 +177,19 @@ def run(ctx):
     ctx.tlc("logger", "LoggerCid", "MC_LoggerCid_ids.cfg", coverage=cov)
     ctx.tlc("logger", "LoggerCid", "MC_LoggerCid_lines.cfg", coverage=cov)
     ctx.tlc("logger", "LoggerCid", "MC_LoggerCid.quick.cfg", coverage=cov)
+    ctx.tlc("logger", "LoggerCid", "MC_LoggerCid_operands.quick.cfg", coverage=cov)
     if not quick:
         ctx.tlc("logger", "LoggerCid", "MC_LoggerCid.thorough.cfg", timeout=800)
+        ctx.tlc("logger", "LoggerCid", "MC_LoggerCid_operands.thorough.cfg", timeout=800)
     # non-vacuity: each named deviation is caught by the invariant that states the clause it breaks
     ctx.tlc("logger", "LoggerCid", "MC_LoggerCid_nonatomic.cfg", expect_violation="Unique", count_states=False, workers=1)
     ctx.tlc("logger", "LoggerCid", "MC_LoggerCid_splitline.cfg", expect_violation="WholeLines", count_states=False, workers=1)
     ctx.tlc("logger", "LoggerCid", "MC_LoggerCid_objcid.cfg", expect_violation="WholeLines", count_states=False, workers=1)
+    # C18/prefix-inserted-in-place: the caller's operand slice is changed by the first call (OperandsUntouched), and the
+    # line of the NEXT call with that slice is wrong at the writer (WholeLines, when OperandsUntouched is not looked at)
+    ctx.tlc("logger", "LoggerCid", "MC_LoggerCid_inplace.cfg", expect_violation="OperandsUntouched", count_states=False, workers=1)
+    if not quick:
+        ctx.tlc("logger", "LoggerCid", "MC_LoggerCid_inplace_line.cfg", expect_violation="WholeLines", count_states=False, workers=1)
 
     # GEN: run descriptors
     cases = os.path.join(ctx.out, "cases.ndjson")
@@ -183,9 +207,9 @@ def run(ctx):
     ctx.fail_results[:] = []
     if "DATA RACE" in (ctx.last_stderr or ""):
         raise vlib.Broken("race report on stderr although GORACE log_path is set:\n%s" % ctx.last_stderr[-2000:])
-    tot = {k: sum(r["info"][k] for r in res) for k in ("events", "new", "alias", "log", "routed", "writes")}
+    tot = {k: sum(r["info"][k] for r in res) for k in ("events", "new", "alias", "log", "routed", "writes", "bufs", "win")}
     ctx.notes["trace_events"] = tot
-    ctx.notes["runs"] = [dict(json.loads(d), **{k: r["info"][k] for k in ("events", "new", "alias", "log", "writes")}) for d, r in zip(descs, res)]
+    ctx.notes["runs"] = [dict(json.loads(d), **{k: r["info"][k] for k in ("events", "new", "alias", "log", "writes", "bufs", "win")}) for d, r in zip(descs, res)]
 
     def rerun(desc, tag):
         """One more recorded execution of a descriptor, alone in a fresh process."""
